@@ -17,7 +17,7 @@ Produce TWO different, independent changes (each against the clean tree; differe
   - patchN.diff : output of `git diff -- probables/` for that change alone (must apply to the clean tree with `git apply`)
   - argueN.md   : 10-20 lines: what was changed, and an argument why the property above still holds for ALL inputs / histories / configurations (mention anything observable that does change, e.g. bucket order, number of random draws, private attribute names).
   - exerciseN.py : a small program that exercises the changed code paths heavily against a straightforward reference (e.g. a Python set / dict / Counter oracle, or the clean semantics as you understand them) and exits 0; it must exit 0 with the change applied AND on the clean tree. Run as: cd {path} && PYTHONPATH={path} /venv/bin/python seed/exerciseN.py
-Before finishing, verify for each change: with the patch applied the full test-suite passes and exerciseN.py exits 0; be self-critical - if you find an input for which the property fails with your change, fix the change. Leave the worktree clean of source changes at the end (`git checkout -- probables/`), keeping only the seed/ directory. Reply with a short summary of the two changes.'''
+Before finishing, verify for each change: with the patch applied the full test-suite passes and exerciseN.py exits 0; be self-critical - if you find an input for which the property fails with your change, fix the change. Never use `git stash` (the stash is shared between worktrees): to switch between the clean and the changed tree use `git diff -- probables/ > seed/patchN.diff`, `git checkout -- probables/` and `git apply seed/patchN.diff`. Leave the worktree clean of source changes at the end (`git checkout -- probables/`), keeping only the seed/ directory. Reply with a short summary of the two changes.'''
 for pid in sys.argv[1:]:
     p = props[pid]
     path = f'/tmp/ben_{pid}'
